@@ -31,6 +31,14 @@ def run(prop, tier, seed_, replay=None):
         from . import c12
 
         return c12.run(tier, seed_)
+    if prop == "C13":
+        from . import c13
+
+        return c13.run(tier, seed_)
+    if prop == "C14":
+        from . import c14
+
+        return c14.run(tier, seed_)
     if prop == "C19":
         from . import c19
 
